@@ -11,6 +11,8 @@ pub mod c07;
 pub mod c08;
 pub mod c09;
 pub mod c10;
+pub mod c11;
+pub mod lo;
 pub mod c12;
 pub mod c13;
 pub mod c14;
@@ -40,6 +42,7 @@ pub fn meta(id: &str) -> Option<Meta> {
         "C08" => c08::meta(),
         "C09" => c09::meta(),
         "C10" => c10::meta(),
+        "C11" => c11::meta(),
         "C12" => c12::meta(),
         "C13" => c13::meta(),
         "C14" => c14::meta(),
@@ -73,6 +76,7 @@ pub fn run_worker(id: &str, ctx: &Ctx, rep: &mut Report) {
         "C08" => c08::run(ctx, rep),
         "C09" => c09::run(ctx, rep),
         "C10" => c10::run(ctx, rep),
+        "C11" => c11::run_sweep(ctx, rep),
         "C12" => c12::run(ctx, rep),
         "C13" => c13::run(ctx, rep),
         "C14" => c14::run(ctx, rep),
